@@ -753,6 +753,39 @@ func runC03(c *mc.Ctx) {
 			}
 		})
 	}
+	// CashAddr through the hooked acceptance function: the lowest and the highest 2^28 (2^32) of the
+	// 2^40 remainder values (still only a 2^-11 (2^-7) fraction of the space: see DESIGN 9.2b)
+	if hookCashVerify != nil {
+		base := c03CashBase(prefix0, 42)
+		cs := symbolsOf(base, ref.CashCharset)
+		bits := mc.Pick(c, 28, 32)
+		total := int64(1)<<uint(bits) - 1
+		c.Space("cashaddr acceptance sweep through the hooked verifyChecksum: low and high remainder values", 2*total)
+		var bad atomic.Int64
+		c.ParFor(total, func(w *mc.W, i int64) {
+			sym := make([]byte, len(cs))
+			for pass := 0; pass < 2; pass++ {
+				s := uint64(i + 1)
+				if pass == 1 {
+					s <<= uint(40 - bits)
+				}
+				copy(sym, cs)
+				for k := 0; k < 8; k++ {
+					sym[len(sym)-1-k] ^= byte(s >> (5 * uint(k)) & 31)
+				}
+				w.Eval()
+				if hookCashVerify(prefix0, sym) && bad.Add(1) <= 3 {
+					var subs []sub
+					for k := 0; k < 8; k++ {
+						if v := int(s >> (5 * uint(k)) & 31); v != 0 {
+							subs = append(subs, sub{k, v})
+						}
+					}
+					c.Violate("cashaddr-accepts-a-nonzero-remainder", "cash-string", c03Str{Prefix: prefix0, Base: base, Subs: subs, Via: "DecodeCashAddress"}, fmt.Sprintf("remainder %010x accepted by verifyChecksum", s))
+				}
+			}
+		})
+	}
 	// CashAddr has 2^40 remainders; swept here: all whose value is below 2^20 (2^24) and all whose
 	// low 20 (16) bits are zero, through the real decoder.
 	{
